@@ -141,10 +141,49 @@ func (c *Ctx) ruleGuarded(rule string, rows []guardRow, min int) {
 			r.Except(rule, fk, cons, pos, why)
 			continue
 		}
+		// the access of a recorded finding moved into a helper: it is still the listed function that performs it
+		// without the lock (through that helper), so it is reported under the listed function's key
+		if anc := c.knownUnlockedCaller(a, ac.Fn, row.Lock, need, rule, cons); anc != "" {
+			r.Add(obl(rule, anc, cons, pos, "violation",
+				fmt.Sprintf("%s of %s needs %s(%s) [%s] but only %s is held on every path to here (%s; the access is in %s, which %s reaches without the lock)", kind, fld, row.Lock, need, row.Why, must, ac.Kind, fk, anc),
+				c.unlockedPath(a, ac.Fn, row.Lock, need)))
+			continue
+		}
 		r.Add(obl(rule, fk, cons, pos, "violation",
 			fmt.Sprintf("%s of %s needs %s(%s) [%s] but only %s is held on every path to here (%s)", kind, fld, row.Lock, need, row.Why, must, ac.Kind),
 			c.unlockedPath(a, ac.Fn, row.Lock, need)))
 	}
+}
+
+// knownUnlockedCaller: a function within three calls above fn, on a chain of call sites at which the lock is not
+// (sufficiently) held, whose own key for this construct is a listed known finding.
+func (c *Ctx) knownUnlockedCaller(a *locks.Analysis, fn *ssa.Function, lock string, need locks.Mode, rule, cons string) string {
+	type item struct {
+		f *ssa.Function
+		d int
+	}
+	seen := map[*ssa.Function]bool{fn: true}
+	queue := []item{{fn, 0}}
+	for len(queue) > 0 {
+		it := queue[0]
+		queue = queue[1:]
+		if it.d >= 3 {
+			continue
+		}
+		for _, e := range a.In[it.f] {
+			_, must, reached := a.At(e.Site)
+			if !reached || must[lock] >= need || seen[e.Caller] {
+				continue
+			}
+			seen[e.Caller] = true
+			ck := ir.OuterKey(e.Caller)
+			if c.R.IsKnown(rule + "|" + ck + "|" + cons) {
+				return ck
+			}
+			queue = append(queue, item{e.Caller, it.d + 1})
+		}
+	}
+	return ""
 }
 
 // unlockedPath finds a caller chain along which the lock is not (sufficiently) held.
